@@ -56,6 +56,7 @@ func zzC06New() *zzC06 {
 			h.notes = append(h.notes, zzC06Note{k, v, r})
 		},
 	})
+	vfQuiesce() // start-up settles: the ticker exists before the first tick is fired
 	return h
 }
 
@@ -307,8 +308,8 @@ func ZZ_C06_Loader() {
 }
 
 // ZZ_C06_Doorkeeper: from an arbitrary doorkeeper state (any reset counter, any filter contents) a new key
-// that is offered twice in a row is admitted the second time (Bloom filters have no false negatives, and a
-// reset happens at most once between the two sightings).
+// that is offered repeatedly is admitted: at the second sighting unless a filter reset fell between the two, and
+// in any case within three sightings (Bloom filters have no false negatives; a reset restarts the counter).
 func ZZ_C06_Doorkeeper() {
 	vfSetHashMode(1)
 	StripedBufferSize = 1
@@ -316,14 +317,20 @@ func ZZ_C06_Doorkeeper() {
 	shard := s.shards[zzIndex(s, 1)]
 	shard.counter = vfUint("counter")
 	shard.dookeeper.Filter = vfSymU64Slice("filter", len(shard.dookeeper.Filter))
+	c0 := shard.counter
+	capD := uint(shard.dookeeper.Capacity)
 	ok1 := s.Set(1, 100, 1, 0)
 	ok2 := s.Set(1, 101, 1, 0)
-	vfReach("two-sets")
-	vfAssert("second-sighting-admitted", ok2)
-	if !ok1 {
+	ok3 := s.Set(1, 102, 1, 0)
+	vfReach("three-sets")
+	// a reset of the filter forgets the key; it happens when the counter has passed the capacity, and then the
+	// counter restarts from zero, so at most one of three consecutive sightings follows a reset
+	vfAssert("second-sighting-admitted-unless-reset-between", vfImplies(c0 != capD, ok2))
+	vfAssert("admitted-within-three-sightings", ok1 || ok2 || ok3)
+	if !ok1 && ok2 {
 		vfReach("first-sight-rejected")
 		v, hit := s.Get(1)
-		vfAssert("second-sighting-readable", hit && v == 101)
+		vfAssert("admitted-value-readable", hit && v == 102)
 	}
-	vfAssert("counter-bounded-by-capacity-plus-one", shard.counter <= uint(shard.dookeeper.Capacity)+1)
+	vfAssert("counter-bounded-by-capacity-plus-one", vfImplies(c0 <= capD+1, shard.counter <= capD+1))
 }
